@@ -641,6 +641,33 @@ theorem C10.surface_area_sphere (E K : ℝ → ℝ → ℝ) (r : ℝ) :
     Scalar.sqr, Scalar.ofNat_real, Nat.cast_ofNat, Nat.cast_one]
   ring
 
+/-- over ℝ the arguments handed to `ellipeinc/ellipkinc` are inside their domain: `0 ≤ m ≤ 1` and
+`0 ≤ φ ≤ π/2` for sorted positive axes with `c < a`.  (In floating point `m` can round to `1 + 2⁻⁵²`
+when `a` and `b` are 1 ulp apart, and scipy then returns nan: known finding
+`Ellipsoid.surface_area:nan:m-rounds-above-1:near-oblate-tie`; rounding is outside these theorems.) -/
+theorem C10.saM_range (a b c : ℝ) (hc : 0 < c) (hcb : c ≤ b) (hba : b ≤ a) (hca : c < a) :
+    0 ≤ Ellipsoid.saM a b c ∧ Ellipsoid.saM a b c ≤ 1 := by
+  simp only [Ellipsoid.saM, Scalar.sqr]
+  have hb : 0 < b := lt_of_lt_of_le hc hcb
+  have ha : 0 < a := lt_of_lt_of_le hb hba
+  have h1 : 0 ≤ b * b - c * c := by nlinarith
+  have h2 : 0 < a * a - c * c := by nlinarith
+  have hden : 0 < b * b * (a * a - c * c) := by positivity
+  constructor
+  · exact div_nonneg (mul_nonneg (by positivity) h1) hden.le
+  · rw [div_le_one hden]
+    nlinarith [mul_le_mul_of_nonneg_right (mul_self_le_mul_self hb.le hba) (mul_self_nonneg c)]
+
+theorem C10.saPhi_range (a c : ℝ) (hc : 0 < c) (hca : c < a) :
+    0 < Ellipsoid.saPhi a c ∧ Ellipsoid.saPhi a c ≤ Real.pi / 2 := by
+  simp only [Ellipsoid.saPhi, Scalar.acos_real]
+  have ha : 0 < a := lt_trans hc hca
+  constructor
+  · rw [Real.arccos_pos, div_lt_one ha]; exact hca
+  · rw [Real.arccos_le_pi_div_two]; positivity
+
+example : (0 : ℝ) < 1 ∧ (1 : ℝ) ≤ 2 ∧ (2 : ℝ) ≤ 3 ∧ (1 : ℝ) < 3 := by norm_num
+
 /-- PARTIAL: the three structural facts about `Ellipsoid.surface_area` bundled; missing is
 Legendre's formula = surface integral (see the section comment). -/
 theorem C10.ellipsoid_surface_area_partial (E K : ℝ → ℝ → ℝ) (a b c k r : ℝ) (hk : 0 < k) :
